@@ -1,7 +1,9 @@
 package main
 
 import (
+	"encoding/json"
 	"fmt"
+	"strings"
 	"go/types"
 	"math/big"
 )
@@ -39,9 +41,12 @@ func init() {
 			}
 		}
 		z := ex.zero(abiT).(Struct)
-		ex.env[fmt.Sprintf("abi!%d", len(ex.env))] = text
 		v := Struct{append([]Value{}, z.F...)}
-		ex.lastABI = text
+		sigs, err := parseABI(text)
+		if err != nil {
+			return Tuple{v, ex.mkError(ex.strConst("abi: " + err.Error()))}
+		}
+		ex.lastABI = sigs
 		return Tuple{v, Iface{}}
 	})
 	// (ABI).Pack: 4 selector bytes (function of ABI text and method) followed by an injective encoding of the arguments
@@ -53,7 +58,14 @@ func init() {
 			args = ex.sliceElems(s)
 		}
 		ex.noteAssumption("go-ethereum abi.Pack is modelled as an injective uninterpreted function of (ABI JSON, method, argument vector)")
-		p := &abiPack{abi: ex.lastABI, method: ms, args: args}
+		inputs, found := ex.lastABI[ms]
+		if !found {
+			return Tuple{Slice{}, ex.mkError(ex.strConst("method '" + ms + "' not found"))}
+		}
+		if len(strings.Split(inputs, ",")) != len(args) && !(inputs == "" && len(args) == 0) {
+			return Tuple{Slice{}, ex.mkError(ex.strConst("argument count mismatch"))}
+		}
+		p := &abiPack{abi: inputs, method: ms, args: args}
 		return Tuple{Slice{Blob: &Blob{Pack: p, Empty: ex.tf.False}}, Iface{}}
 	})
 	// crypto.SigToPub / PubkeyToAddress: recover(digest, sig) as an uninterpreted function; recovery may fail
@@ -85,6 +97,29 @@ func init() {
 		r := op.Data.(*recovered)
 		return ex.recoverAddr(r)
 	})
+}
+
+// parseABI: method name -> comma-separated input types
+func parseABI(text string) (map[string]string, error) {
+	var items []struct {
+		Name   string `json:"name"`
+		Type   string `json:"type"`
+		Inputs []struct {
+			Type string `json:"type"`
+		} `json:"inputs"`
+	}
+	if err := json.Unmarshal([]byte(text), &items); err != nil {
+		return nil, err
+	}
+	out := map[string]string{}
+	for _, it := range items {
+		var ts []string
+		for _, in := range it.Inputs {
+			ts = append(ts, in.Type)
+		}
+		out[it.Name] = strings.Join(ts, ",")
+	}
+	return out, nil
 }
 
 type recovered struct {
